@@ -507,6 +507,7 @@ def run_property(prop, tier, verbose=False):
         vals, ttxt = extract_trace_values(job, f, None)
         inputs = {}
         rpdef = job.get("replay") or {}
+        inputs.update(rpdef.get("args") or {})
         for name, var in (rpdef.get("vars") or {}).items():
             if var in vals:
                 inputs[name] = vals[var]
@@ -607,6 +608,11 @@ def main(argv):
             keep = []
             r = run_job(job, "thorough" if "thorough" in argv else "quick", verbose)
             print(json.dumps(r, indent=1))
+            if "--trace" in argv:
+                for f in r["failed"][:3]:
+                    vals, txt = extract_trace_values(job, f, None)
+                    print("==== trace for", f["obligation"], f["description"])
+                    print(txt)
             return 0 if r["status"] == "pass" else (1 if r["status"] == "fail" else 2)
         if argv[0] == "--replay":
             outcome, txt = native_replay(argv[1])
